@@ -1353,7 +1353,10 @@ static EntryTableDArray bufr_tabled_read (EntryTableDArray addr_tabled, const ch
    {
    int desclen = 0;
    FILE *fp ;
-   char ligne[4096] ;
+/*
+ * a line holds up to 1024 descriptors of 6 digits and a blank each
+ */
+   char ligne[8192] ;
    EntryTableD  *etb;
    int  count;
    int  descriptors[1024];
